@@ -1010,6 +1010,11 @@ func (st *State) builtin(b *ssa.Builtin, args []Value, c *ssa.CallCommon) Value 
 		return nil
 	case "print", "println":
 		return nil
+	case "ssa:wrapnilchk":
+		if p, ok := args[0].(Ptr); ok && p.obj == nil {
+			panic(goPanic{msg: "value method called using nil pointer"})
+		}
+		return args[0]
 	case "min", "max":
 		acc := args[0].(*Term)
 		isF := isFloatType(c.Args[0].Type())
